@@ -682,6 +682,69 @@ func c18PtrNull(r *core.Report) {
 				})
 				return found
 			}
+			// a reference to a component cannot carry `nullable` (siblings of $ref are ignored and the
+			// generator drops the reference's Value): returning one where the recorded flag may be true
+			// loses the null
+			if len(nullVars) > 0 {
+				kr := 0
+				ast.Inspect(d.Body, func(nd ast.Node) bool {
+					if _, isLit := nd.(*ast.FuncLit); isLit {
+						return false
+					}
+					ret, ok := nd.(*ast.ReturnStmt)
+					if !ok || len(ret.Results) == 0 {
+						return true
+					}
+					isCompRef := false
+					res0 := ast.Expr(ret.Results[0])
+					if id, ok := ast.Unparen(res0).(*ast.Ident); ok {
+						// ref := NewSchemaRef("#/components/schemas/...", ...); ...; return ref
+						if as := core.NewFuncFacts(p, info, d).Assigns(info.ObjectOf(id)); len(as) == 1 && as[0].Rhs != nil {
+							res0 = as[0].Rhs
+						}
+					}
+					ast.Inspect(res0, func(m ast.Node) bool {
+						if bl, ok := m.(*ast.BasicLit); ok && strings.Contains(bl.Value, "#/components/schemas/") {
+							isCompRef = true
+						}
+						return true
+					})
+					if !isCompRef {
+						return true
+					}
+					n++
+					kr++
+					key := fmt.Sprintf("ptrnull:%s/componentref#%d", core.FuncName(d), kr)
+					guarded, reuse := false, false
+					ffd := core.NewFuncFacts(p, info, d)
+					for _, a := range core.Atoms(core.GuardsAt(info, d.Body, ret)) {
+						ast.Inspect(a.Expr, func(m ast.Node) bool {
+							id, ok := m.(*ast.Ident)
+							if !ok {
+								return true
+							}
+							if nullVars[info.ObjectOf(id)] && !a.Pos {
+								guarded = true
+							}
+							// `_, ok := registry[name]; ok`: the component exists already
+							for _, as := range ffd.Assigns(info.ObjectOf(id)) {
+								if as.MapIndex != nil && a.Pos {
+									reuse = true
+								}
+							}
+							return true
+						})
+					}
+					if guarded {
+						r.OK(key, p.Pos(ret.Pos()), "a component reference is returned only for a type that is not nullable")
+					} else if !reuse {
+						r.OK(key, p.Pos(ret.Pos()), "this return defines the component from the schema that carries the flag")
+					} else {
+						r.Bad(key, p.Pos(ret.Pos()), fmt.Sprintf("%s returns a reference to a component although the pointer flag it computed may be set: the flag was stored in the schema that becomes the reference's Value, which is dropped for component references, so a pointer field whose type was already exported as a component (from a non-pointer use) rejects the `null` of a nil pointer", core.FuncName(d)))
+					}
+					return true
+				})
+			}
 			var sites []ast.Node // bodies guarded by a pointer-kind test
 			ast.Inspect(d.Body, func(nd ast.Node) bool {
 				switch x := nd.(type) {
